@@ -45,7 +45,7 @@ BATCH_DOC = {
 PLAN = {
     # runs per batch; R2 keys per hash seed; R3 replays; determinism seeds; soft wall cap (s)
     # K5: repetitions per op; K6: (read faults per table, interrupts per table)
-    "quick": {"runs": {"K0": 100, "K1": 260, "K2": 140, "K3": 140, "K4": 160}, "k5_reps": 3, "k6": (2, 4),
+    "quick": {"runs": {"K0": 80, "K1": 200, "K2": 100, "K3": 100, "K4": 120}, "k5_reps": 3, "k6": (2, 4),
               "r2": 24, "r2_single": 3, "r3": 8, "det": 8, "cap": 420},
     "thorough": {"runs": {"K0": 3000, "K1": 9000, "K2": 5000, "K3": 5000, "K4": 6000}, "k5_reps": 40, "k6": (5, 60),
                  "r2": 600, "r2_single": 24, "r3": 200, "det": 64, "cap": 3300},
@@ -250,8 +250,9 @@ class Check:
                                     "table": f"{kind}{n}-{c}.txt", "fault": f,
                                     "seed": run_seed(self.seed, self.tier, "K6", i), "keep": i < 4, "want_events": True})
                         i += 1
-        # interleave batches so that a truncated run still covers all of them
-        out.sort(key=lambda j: (j["i"], j["batch"]))
+        # interleave batches so that a truncated run still covers all of them; the potentially long templates
+        # (5/6 qubits) go first so that they do not form a tail
+        out.sort(key=lambda j: (0 if (j["batch"] == "K5" and j.get("n", 0) >= 5) else 1, j["i"], j["batch"]))
         return out
 
     def run_batches(self, pool):
